@@ -201,38 +201,79 @@ def oracle_episode(ctx: Ctx, case):
 
 
 def oracle_physics(ctx: Ctx, case):
-    """One control step from a re-synchronised state: MJX (lerax.transition) vs C MuJoCo (Gymnasium step)."""
+    """Single control steps from re-synchronised states: MJX (lerax.transition) vs C MuJoCo (Gymnasium
+    step), aggregated over the episodes of the case.  A wrong frame_skip / control mapping / model breaks
+    (almost) every step; MJX-vs-C solver differences on constraint-rich steps are upstream and are
+    tolerated by a floor fraction (counted, never reported)."""
+    name = case["env"]
+    L, G = lerax_env(name), gym_env(name)
+    agree = total = contact_cases = contact_ok = 0
+    for ep in case["episodes"]:
+        s, _ = _initial(L, jr.key(ep["key"]))
+        for a in ep["actions"]:
+            a = jnp.asarray(a, dtype=jnp.float32)
+            s2, *_ = _trans(L, s, a)
+            if not np.all(np.isfinite(_np(s2.sim_state.qpos))):
+                break
+            sync_gym(G, s.sim_state.qpos, s.sim_state.qvel)
+            G.step(np.asarray(a, np.float64))
+            dq = np.max(np.abs(_np(s2.sim_state.qpos) - G.data.qpos))
+            dv = np.max(np.abs(_np(s2.sim_state.qvel) - G.data.qvel) / (1.0 + np.abs(G.data.qvel)))
+            total += 1
+            agree += bool(dq < 2e-3 and dv < 2e-2)
+            # external contact forces exist on the lerax side whenever the reference has substantial ones
+            fC = float(np.abs(G.data.cfrc_ext).max())
+            if G.data.ncon > 0 and fC > 5.0:
+                contact_cases += 1
+                fL = float(np.abs(_cfrc(s2)).max())
+                contact_ok += bool(fL > 0.02 * fC)
+            s = s2
+    ctx.check(total < 12 or agree / total >= 0.2, f"C17/{name}/single-step-physics-disagrees-with-C-MuJoCo", tags={"env": name}, agree=agree, total=total)
+    if name in ("Ant", "Humanoid", "HumanoidStandup") and contact_cases >= 3:
+        ctx.check(contact_ok >= 0.5 * contact_cases, f"C17/{name}/external-contact-forces-missing-in-successor-state", tags={"env": name}, contact_cases=contact_cases, with_forces=contact_ok)
+    ctx.count(nontrivial=total >= 12, classes=[name, f"physics_agree_fraction>={int(10 * agree / max(total, 1)) / 10}"] + ["contact_force_cases"] * bool(contact_cases), key=[name, case["episodes"][0]["key"], "physics"])
+
+
+# health / termination thresholds of the reference environments: (qpos index, threshold values)
+THRESHOLDS = {
+    "InvertedPendulum": [(1, [0.2, -0.2])],
+    "InvertedDoublePendulum": [(1, [0.6, -0.6, 1.0, -1.0]), (2, [0.8, -0.8])],
+    "Hopper": [(1, [0.7]), (2, [0.2, -0.2])],
+    "Walker2d": [(1, [0.8, 2.0]), (2, [1.0, -1.0])],
+    "Ant": [(2, [0.2, 1.0])],
+    "Humanoid": [(2, [1.0, 2.0])],
+}
+
+
+@eqx.filter_jit
+def _crafted(env, s, qpos, qvel, a):
+    from mujoco import mjx
+
+    data = s.sim_state.replace(qpos=qpos, qvel=qvel, ctrl=a)
+    data = mjx.forward(env.model, data)
+    s2 = eqx.tree_at(lambda st: (st.sim_state, st.t), s, (data, s.t + env.dt))
+    k = jr.key(0)
+    return s2, env.observation(s2, key=k), env.reward(s, a, s2, key=k), env.terminal(s2, key=k), env.transition_info(s, a, s2)
+
+
+def oracle_boundary(ctx: Ctx, case):
+    """The reference's step() judges a crafted successor state whose health coordinate sits just inside /
+    outside a termination threshold (both sides get the same (s, a, s') triple)."""
     name = case["env"]
     L, G = lerax_env(name), gym_env(name)
     s, _ = _initial(L, jr.key(case["key"]))
-    agree = total = contact_cases = contact_ok = 0
-    for a in case["actions"]:
-        a = jnp.asarray(a, dtype=jnp.float32)
-        s2, *_ = _trans(L, s, a)
-        if not np.all(np.isfinite(_np(s2.sim_state.qpos))):
-            break
-        sync_gym(G, s.sim_state.qpos, s.sim_state.qvel)
-        G.step(np.asarray(a, np.float64))
-        dq = np.max(np.abs(_np(s2.sim_state.qpos) - G.data.qpos))
-        dv = np.max(np.abs(_np(s2.sim_state.qvel) - G.data.qvel) / (1.0 + np.abs(G.data.qvel)))
-        total += 1
-        agree += bool(dq < 2e-3 and dv < 2e-2)
-        # external contact forces exist on the lerax side whenever the reference has substantial ones
-        fC = float(np.abs(G.data.cfrc_ext).max())
-        if G.data.ncon > 0 and fC > 5.0:
-            contact_cases += 1
-            fL = float(np.abs(_cfrc(s2)).max())
-            contact_ok += bool(fL > 0.02 * fC)
-        s = s2
-    # a wrong frame_skip / control mapping / model breaks (almost) every step; MJX-vs-C solver differences on
-    # constraint-rich steps are upstream and tolerated (counted, never reported)
-    ctx.check(total == 0 or agree / total >= 0.4, f"C17/{name}/single-step-physics-disagrees-with-C-MuJoCo", tags={"env": name}, agree=agree, total=total)
-    if name in ("Ant", "Humanoid", "HumanoidStandup") and contact_cases >= 2:
-        ctx.check(contact_ok >= 0.5 * contact_cases, f"C17/{name}/external-contact-forces-missing-in-successor-state", tags={"env": name}, contact_cases=contact_cases, with_forces=contact_ok)
-    ctx.count(nontrivial=total >= 3, classes=[name, f"agree={agree}/{total}"] + ["contact_force_cases"] * bool(contact_cases), key=[name, case["key"], "physics"])
+    qpos = np.asarray(s.sim_state.qpos, np.float64).copy()
+    qvel = np.asarray(s.sim_state.qvel, np.float64).copy()
+    qpos[case["index"]] = case["value"]
+    for i, v in case.get("extra", []):
+        qpos[i] = v
+    a = jnp.asarray(case["action"], dtype=jnp.float32)
+    s2, obs2, rew, term, info = _crafted(L, s, jnp.asarray(qpos, dtype=s.sim_state.qpos.dtype), jnp.asarray(qvel, dtype=s.sim_state.qvel.dtype), a)
+    gterm, contact = _compare_step(ctx, name, G, s, a, s2, obs2, rew, term, info, True, {"env": name, "layer": "boundary"})
+    ctx.count(nontrivial=True, classes=[name, "boundary", "terminated" if gterm else "healthy"], key=[name, case["index"], case["value"], case["key"]])
 
 
-PARTS = {"mj_model": oracle_model, "mj_reset": oracle_episode, "mj_step": oracle_episode, "mj_physics": oracle_physics}
+PARTS = {"mj_boundary": oracle_boundary, "mj_model": oracle_model, "mj_reset": oracle_episode, "mj_step": oracle_episode, "mj_physics": oracle_physics}
 
 OPTIONS = {
     "Ant": [{}, {"exclude_current_positions_from_observation": False}, {"include_cfrc_ext_in_observation": False}, {"terminate_when_unhealthy": False}],
@@ -272,9 +313,13 @@ def worker(ctx: Ctx, payload):
             for e in range(max(1, n_eps // 3)):
                 case = {"env": name, "opts": opts, "key": int(rng.integers(0, 2**31 - 1)), "actions": [a.tolist() for a in _actions(rng, low, high, ep_len, modes[e % 4])]}
                 run_one("mj_step", oracle_episode, case)
-    for e in range(n_phys):
-        case = {"env": name, "key": int(rng.integers(0, 2**31 - 1)), "actions": [a.tolist() for a in _actions(rng, low, high, 6, ["uniform", "zero"][e % 2])]}
-        run_one("mj_physics", oracle_physics, case)
+    for idx, ths in THRESHOLDS.get(name, []):
+        for th in ths:
+            for delta in (-3e-2, -2e-3, 2e-3, 3e-2):
+                case = {"env": name, "key": int(rng.integers(0, 2**31 - 1)), "index": idx, "value": float(th + delta), "action": rng.uniform(low, high).astype(np.float32).tolist()}
+                run_one("mj_boundary", oracle_boundary, case)
+    eps = [{"key": int(rng.integers(0, 2**31 - 1)), "actions": [a.tolist() for a in _actions(rng, low, high, 6, ["uniform", "zero", "hold"][e % 3])]} for e in range(max(n_phys, 3))]
+    run_one("mj_physics", oracle_physics, {"env": name, "episodes": eps})
     ctx.classes[f"worker_seconds:{name}"] = int(time.time() - t0)
 
 
